@@ -52,6 +52,18 @@ def build_tokamak(cfg):
     off = cfg.get("psi_offset", 0.0)
     psi2d = analytic.psi(fam, r2d, z2d, sign, scale) + off
     psi1d = analytic.psi(fam, np.linspace(analytic.R0, 1.2 * analytic.R0, n), 0.0, sign, scale) + off
+    options = dict(cfg["options"])
+    if cfg.get("profile_grid") == "sep":
+        # geqdsk-like profile grid: magnetic axis -> primary separatrix
+        import crit
+        g, h = crit.analytic_funcs(fam, sign, scale)
+        cps = crit.find_all(g, h, (1.25, 1.75, -0.45, 0.45), n=10)
+        ax = min((p for p in cps if p[2] == "O"), key=lambda p: abs(p[1]))
+        pa = float(analytic.psi(fam, ax[0], ax[1], sign, scale)) + off
+        px = min((float(analytic.psi(fam, p[0], p[1], sign, scale)) + off for p in cps if p[2] == "X"), key=lambda v: abs(v - pa))
+        psi1d = np.linspace(pa, px, n)
+        if "psi_sol_norm" in cfg:
+            options["psi_sol"] = options["psi_sol_inner"] = pa + cfg["psi_sol_norm"] * (px - pa)
     fk = cfg.get("fpol", "linear")
     if fk == "none":
         fpol1d = []
@@ -66,7 +78,6 @@ def build_tokamak(cfg):
     if cfg.get("pressure", True):
         s = (psi1d - psi1d[0]) / (psi1d[-1] - psi1d[0])
         pressure = 1000.0 * (1.2 - s) ** 2 + 50.0
-    options = dict(cfg["options"])
     eq = tokamak.TokamakEquilibrium(r1d.copy(), z1d.copy(), psi2d.copy(), psi1d.copy(), np.array(fpol1d, dtype=float).copy(),
                                     pressure=None if pressure is None else pressure.copy(),
                                     settings=options, nonorthogonal_settings=options, wall=wall_for(cfg))
@@ -118,6 +129,14 @@ def main():
         else:
             eq, options, inputs = build_circular(cfg)
         mesh = BoutMesh(eq, options)
+        # interactive history (C15, C03): [geometry();] redistributePoints(settings); calculateRZ()  repeated, as the GUI's Regrid button does
+        for step in cfg.get("regrid", []):
+            if step.get("geometry_before"):
+                mesh.geometry()
+            st = dict(options)
+            st.update(step["settings"])
+            mesh.redistributePoints(st)
+            mesh.calculateRZ()
         mesh.geometry()
         gridfile = os.path.join(outdir, "grid.nc")
         if os.path.exists(gridfile):
